@@ -20,6 +20,9 @@ type viewSvc2 struct {
 }
 
 func (s *viewSvc2) Dyn(context.Context) (*svc.Outer, string, error) { return s.res, s.view, nil }
+func (s *viewSvc2) Coll(context.Context) (svc.OuterCollection, string, error) {
+	return svc.OuterCollection{s.res}, s.view, nil
+}
 func (s *viewSvc2) Fixd(context.Context) (*svc.Outer, error)        { return s.res, nil }
 
 // VerifC08_w2: nested attribute with a type-level view ("tiny") and a
@@ -46,6 +49,16 @@ func VerifC08_w2() {
 	verifAssert("w2:one-response", w.nHeaders == 1 && w.status == http.StatusOK && len(w.encoded) == 1)
 	if len(w.encoded) != 1 {
 		return
+	}
+	op := "GET /fixd"
+	if dynamic {
+		op = "GET /dyn"
+	}
+	conforms := verifSchemaAccepts(openapiDoc, op, map[string]any{"response:200": w.encoded[0]})
+	if view == "tiny" {
+		verifAssert("openapi:response-conforms[run-time-view-other-than-default]", conforms)
+	} else {
+		verifAssert("openapi:response-conforms", conforms)
 	}
 	// wire document, looked at through its JSON member names only: under the
 	// parent's default view the nested value is rendered with the overriding
@@ -91,6 +104,57 @@ func VerifC08_w2() {
 			verifAssert("w2:client:b.c", r.B.C == want.B.C)
 		} else {
 			verifAssert("w2:client:b.c-unset-under-tiny", r.B.C == "")
+		}
+	}
+}
+
+// VerifC08_w2_coll: a collection declared with a DSL that only documents it
+// still offers the views of its element type.
+func VerifC08_w2_coll() {
+	want := &svc.Outer{A: nondetStringUpTo("a", 1)}
+	if nondetBool("b-set") {
+		want.B = &svc.Inner{C: nondetStringUpTo("c", 1), D: nondetInt("d")}
+	}
+	view := "default"
+	if nondetBool("tiny") {
+		view = "tiny"
+	}
+	eps := svc.NewEndpoints(&viewSvc2{res: want, view: view})
+	srv := server.New(eps, &stubMux{}, func(*http.Request) goahttp.Decoder { return stubDecoder{func(any) error { return nil }} }, recEncoder(), nil, nil)
+	w := newRecWriter()
+	srv.Coll.ServeHTTP(w, newRequest("GET", nil))
+	verifAssert("w2coll:one-response", w.nHeaders == 1 && w.status == http.StatusOK && len(w.encoded) == 1)
+	verifAssert("w2coll:view-header", w.h.Get("goa-view") == view)
+	if len(w.encoded) != 1 {
+		return
+	}
+	cconf := verifSchemaAccepts(openapiDoc, "GET /coll", map[string]any{"response:200": w.encoded[0]})
+	if view == "tiny" {
+		verifAssert("openapi:response-conforms[run-time-view-other-than-default]", cconf)
+	} else {
+		verifAssert("openapi:response-conforms", cconf)
+	}
+	resp := &http.Response{StatusCode: w.status, Header: w.h, Body: io.NopCloser(strings.NewReader(""))}
+	out, err := client.DecodeCollResponse(func(*http.Response) goahttp.Decoder {
+		return stubDecoder{func(v any) error { return verifJSONCopy(v, w.encoded[0]) }}
+	}, false)(resp)
+	verifAssert("w2coll:client-accepts", err == nil)
+	if err != nil {
+		return
+	}
+	col, ok := out.(svc.OuterCollection)
+	verifAssert("w2coll:one-element", ok && len(col) == 1 && col[0] != nil)
+	if !ok || len(col) != 1 || col[0] == nil {
+		return
+	}
+	r := col[0]
+	verifAssert("w2coll:a", r.A == want.A && (r.B == nil) == (want.B == nil))
+	if r.B != nil && want.B != nil {
+		verifAssert("w2coll:b.d", r.B.D == want.B.D)
+		if view == "default" {
+			verifAssert("w2coll:b.c-under-overriding-view", r.B.C == want.B.C)
+		} else {
+			verifAssert("w2coll:b.c-unset-under-tiny", r.B.C == "")
 		}
 	}
 }
